@@ -472,7 +472,7 @@ pub fn relate_strings(t: &E, choice: u64, backslash: bool) -> E {
     }
     let j = 1 + (choice % (n as u64 - 1)) as usize;
     let i = ((choice / 7) % j as u64) as usize;
-    let how = (choice / 97) % 12;
+    let how = (choice / 97) % 16;
     let src = t.user_strings()[i].clone();
     let derived = match how {
         0 | 1 | 2 => src.clone(),
@@ -484,7 +484,12 @@ pub fn relate_strings(t: &E, choice: u64, backslash: bool) -> E {
         8 => src.replace('\\', ""),
         9 => format!("{src}*"),
         10 => format!("*{src}"),
-        _ => format!("x.{src}"),
+        11 => format!("x.{src}"),
+        // blanks at either end (a key that is trimmed takes the two for one)
+        12 => format!("{src} "),
+        13 => format!(" {src}"),
+        14 => format!("{src}\t"),
+        _ => src.trim().to_string(),
     };
     let derived = if backslash { derived } else { derived.replace('\\', "") };
     if derived.is_empty() || derived.contains('\u{1e}') {
